@@ -95,10 +95,11 @@ class Buffer:
                 except Exception:
                     logger.warning("Buffer: Contents is not a valid message")
                     # A complete element that is not a valid message will
-                    # never become one: skip it, otherwise it blocks every
-                    # message behind it until the junk threshold is exceeded.
-                    self.data = data[end:]
-                    self._cleanup_buffer()
+                    # never become one: give it up now, otherwise it blocks
+                    # every message behind it until the junk threshold is
+                    # exceeded. Only its opening is dropped, so that valid
+                    # messages it may enclose are still found.
+                    self._cleanup_beginning()
                     data = self.data
                     end = 0
         return None, None
